@@ -21,7 +21,7 @@
 -/
 import SpqProofs.Lemmas.ConvVec
 import SpqProofs.Lemmas.ConvToTnx32
-import SpqProofs.Lemmas.ConvBnd63
+import SpqProofs.Lemmas.ConvBnd63Wide
 import SpqProofs.Lemmas.ConvToTnxBasic
 namespace Spq.C14
 open Spq Spq.F64 Spq.Conv
@@ -89,40 +89,44 @@ theorem to_znx64_bnd50 (m : Nat) (j : Int) (hj1 : -1022 ≤ j) (hj2 : j ≤ 971)
   refine ⟨_, chunks4_getElem? _ m i (by omega) hdiv hi, ?_⟩
   exact toZnx64Bnd50Lane_spec j hj1 hj2 _ hdom
 
-/-- The wide variant `reim_to_znx64_avx2_bnd63_fma` does NOT satisfy the contract on its whole domain
-    |x/d| < 2^52: it computes `trunc(fl(x ± d/2)/d)` and the addition rounds.  For `d = 1` and
-    `x = 0.49999999999999994` (the predecessor of 1/2, pattern 0x3FDFFFFFFFFFFFFF) `x + 0.5` rounds to 1.0 and
-    the function returns 1, which is at distance 1/2 + 2^-54 > 1/2 from `x`.  (Confirmed on the real code by the
-    stream `f6_conv`; the same happens for every divisor 2^j at `x = ±pred(d/2)`.) -/
-theorem to_znx64_bnd63_violation :
+/-- `reim_to_znx64_avx2_bnd63_fma` with the repair of D7 (`offset = divisor * (0.5 - 0x1p-54)`, i.e. pred(d/2); the
+    kernel computes `sign(x)·⌊|fl(x + sign(x)·offset)| / d⌋` by exponent difference and variable shifts): for every
+    input with |x/d| < 2^52 the result is within 1/2 of `x/d`, ties included, with no hypothesis on the rounding of
+    the addition (a representable `x` never lies within `d·2^-54` above a half-integer multiple of `d`, and the
+    rounded sum never crosses a multiple of `d` in the wrong direction). -/
+theorem to_znx64_bnd63 (m : Nat) (j : Int) (hj1 : -1020 ≤ j) (hj2 : j ≤ 971) (x : Array Nat) (i : Nat)
+    (hi : i < 2 * m) (hdiv : (2 * m) % 4 = 0) (hx64 : x.getD i 0 < 18446744073709551616)
+    (hdom : MagLt (x.getD i 0) (pow2 j) 4503599627370496) :
+    ∃ r, (toZnx64Bnd63 m (pow2 j) x)[i]? = some r ∧ Within r (x.getD i 0) (pow2 j) := by
+  refine ⟨_, chunks4_getElem? _ m i (by omega) hdiv hi, ?_⟩
+  exact toZnx64Bnd63Lane_spec j hj1 hj2 _ hx64 hdom
+
+/-- the extended range of the repaired kernel, 2^52 ≤ |x/d| < 2^63 (`x/d` is then an integer): `x + sign(x)·pred(d/2)`
+    rounds back to `x` and the left-shift branch returns exactly `x/d` (`r·d = x`) -/
+theorem to_znx64_bnd63_wide (m : Nat) (j : Int) (hj1 : -1020 ≤ j) (hj2 : j ≤ 961) (x : Array Nat) (i : Nat)
+    (hi : i < 2 * m) (hdiv : (2 * m) % 4 = 0) (hx64 : x.getD i 0 < 18446744073709551616)
+    (hlo : 4503599627370496 * toScaled (pow2 j) ≤ |toScaled (x.getD i 0)|)
+    (hhi : MagLt (x.getD i 0) (pow2 j) 9223372036854775808) :
+    ∃ r, (toZnx64Bnd63 m (pow2 j) x)[i]? = some r ∧ r * toScaled (pow2 j) = toScaled (x.getD i 0) := by
+  refine ⟨_, chunks4_getElem? _ m i (by omega) hdiv hi, ?_⟩
+  exact toZnx64Bnd63Lane_wide j hj1 hj2 _ hx64 hlo hhi
+
+/-- Why the repair was needed (finding D7): with the original `offset = divisor / 2.` the kernel violated the
+    contract in-domain — for `d = 1`, `x = 0.49999999999999994` (pattern 0x3FDFFFFFFFFFFFFF) `x + 0.5` rounds to 1.0
+    and the result is 1, at distance 1/2 + 2^-54 from `x` — and on the extended range it rounded odd integers of
+    [2^52, 2^53) to even (`2^52 + 1 ↦ 2^52 + 2`).  The repaired kernel returns 0 and 2^52 + 1. -/
+theorem to_znx64_bnd63_old_violation :
     MagLt 4602678819172646911 (pow2 0) 4503599627370496 ∧
-    toZnx64Bnd63Lane (bnd63Offset (pow2 0)) (bnd63DiviBits (pow2 0)) 4602678819172646911 = 1 ∧
-    ¬ Within 1 4602678819172646911 (pow2 0) := by
+    toZnx64Bnd63Lane (bnd63OffsetOld (pow2 0)) (bnd63DiviBits (pow2 0)) 4602678819172646911 = 1 ∧
+    ¬ Within 1 4602678819172646911 (pow2 0) ∧
+    toZnx64Bnd63Lane (bnd63OffsetOld (pow2 0)) (bnd63DiviBits (pow2 0)) 4841369599423283201 = 4503599627370498 ∧
+    toZnx64Bnd63Lane (bnd63Offset (pow2 0)) (bnd63DiviBits (pow2 0)) 4602678819172646911 = 0 ∧
+    toZnx64Bnd63Lane (bnd63Offset (pow2 0)) (bnd63DiviBits (pow2 0)) 4841369599423283201 = 4503599627370497 := by
   unfold Within MagLt
   decide +kernel
 
-/- Full statement for the wide variant (FALSE as such, see `to_znx64_bnd63_violation`):
-     ∀ m j x i, i < 2m → (2m) % 4 = 0 → |x[i]/d| < 2^52 →
-       ∃ r, (toZnx64Bnd63 m (pow2 j) x)[i]? = some r ∧ Within r x[i] (pow2 j).
-   Proved part: the sign handling, the exponent-difference computation, the variable shifts `sllv/srlv`, the
-   xor/sub negation — i.e. the result is `sign(x)·⌊|fl(x + sign(x)·d/2)| / d⌋` — and hence the contract, under the
-   explicit extra hypothesis `hexact` that the floating-point addition `x + sign(x)·d/2` is exact (it is whenever
-   `x/d` is a multiple of 2^-52·2^⌊log2(|x/d|+1/2)⌋; it is not at `x = ±pred(d/2)`). -/
-theorem to_znx64_bnd63_partial (m : Nat) (j : Int) (hj1 : -1021 ≤ j) (hj2 : j ≤ 970) (x : Array Nat) (i : Nat)
-    (hi : i < 2 * m) (hdiv : (2 * m) % 4 = 0) (hx64 : x.getD i 0 < 18446744073709551616)
-    (hdom : MagLt (x.getD i 0) (pow2 j) 4503599627370496)
-    (hexact : toScaled (F64.add (x.getD i 0) ((x.getD i 0 &&& SIGN_MASK) ||| bnd63Offset (pow2 j))) =
-      toScaled (x.getD i 0) + toScaled ((x.getD i 0 &&& SIGN_MASK) ||| bnd63Offset (pow2 j))) :
-    ∃ r, (toZnx64Bnd63 m (pow2 j) x)[i]? = some r ∧ Within r (x.getD i 0) (pow2 j) := by
-  refine ⟨_, chunks4_getElem? _ m i (by omega) hdiv hi, ?_⟩
-  exact toZnx64Bnd63Lane_spec_of_exact j hj1 hj2 _ hx64 hdom hexact
-
-/-- `hexact` holds for instance at `x = -2.5·2^7`, `d = 2^7` (a tie of the final rounding: the result is -3) -/
-example :
-    toScaled (F64.add 13867709152580599808 ((13867709152580599808 &&& SIGN_MASK) ||| bnd63Offset (pow2 7))) =
-      toScaled 13867709152580599808 + toScaled ((13867709152580599808 &&& SIGN_MASK) ||| bnd63Offset (pow2 7)) ∧
-    toZnx64Bnd63Lane (bnd63Offset (pow2 7)) (bnd63DiviBits (pow2 7)) 13867709152580599808 = -3 := by
-  decide +kernel
+example : ∃ x, x < 18446744073709551616 ∧ MagLt x (pow2 (-4)) 4503599627370496 ∧ toScaled x ≠ 0 :=
+  ⟨13808036457517940735, by unfold MagLt; decide +kernel⟩   -- x = -pred(1/2)·2^-4, d = 2^-4: a former failing input
 
 example : ∃ x, MagLt x (pow2 3) 1125899906842624 ∧ toScaled x ≠ 0 :=
   ⟨4845873199050653695, by unfold MagLt; decide +kernel⟩   -- x = 2^53 - 1 = (2^50 - 1/8)·8
